@@ -27,8 +27,12 @@ THEOREMS = [
     'IblVerif.C13.templates_rows_are_units_partial',
     'IblVerif.C13.templates_shifted_counterexample',
     'IblVerif.C13.loader_returns_saved',
+    'IblVerif.C13.extraction_depends_on_content_only',
+    'IblVerif.C13.history_independent',
+    'IblVerif.C13.chunks_partition_recording',
+    'IblVerif.C13.template_single_waveform',
 ]
-RULE = ('three kinds of cases, all drawn from ctx.rng.  (1) chidx: a geometry (first n sites of the real NP1 / NP2 / NP2 4-shank '
+RULE = ('five kinds of cases, all drawn from ctx.rng.  (1) chidx: a geometry (first n sites of the real NP1 / NP2 / NP2 4-shank '
         'tables, dense grids, random integer sites incl. coincident ones; n = 1..384) x a radius (0, table values, exactly the distance '
         'of a site pair, half a micron below it) x pad value.  (2) extract: extract_wfs_array on a formula recording value(c,t) = (t*K+c) mod M '
         'with small trough_offset/length, 1..6 spikes whose windows start at sample 0, end at the last sample, one past either end '
@@ -45,7 +49,14 @@ RULE = ('three kinds of cases, all drawn from ctx.rng.  (1) chidx: a geometry (f
         'result is what is compared with the model of the original values; a later result that differs from it is appended to the implementation answer (a '
         'disagreement) and the oracle returns it as a concrete call sequence with its wrong result.  An argument array changed in place is only recorded as '
         'a tag / note (no demand), results aliasing internal buffers are not examined.  '
-        'A case is non-trivial when it produces >= 1 waveform (bin), succeeds with >= 1 spike (extract), or has >= 2 sites (chidx); '
+        '(4) bounds: the statements of extract_wfs_cbin that build the chunk list and hand table rows to the jobs (np.arange(0, ns, cs); + cs; [-1] = ns; '
+        'np.searchsorted(sample column, [s0, s1])) evaluated by NumPy vs chunkStarts / chunkEnd / searchLeft of the model, ns in {0, 1, cs-1, cs, cs+1, k*cs, k*cs+-1, random}, '
+        'cs 1..10000, sample columns with entries on chunk starts, at ns-1 / ns / beyond and duplicates (this checks the NumPy meaning the tie theorem chunk_bounds_eq gives the '
+        'translated statements).  (5) tmpl: np.nanmedian(wfs[first:last+1], axis=0) into a float32 array vs template2 of the model on 1..6 small integer waveforms '
+        '(40 % a single waveform) with NaN samples, all-NaN padding channels and all-NaN columns.  '
+        'Chunk-size sweep: for some bin cases a second run with 1 worker and a chunk size >= the window length (and >= trough_offset, at most ~150 chunks) taken from '
+        '{the smallest such size, +1, a size leaving a last chunk shorter than a window, ns-1, ns, ns+7}; the files must be identical (op independence, tag sweep:...).  '
+        'A case is non-trivial when it produces >= 1 waveform (bin), succeeds with >= 1 spike (extract), has >= 2 sites (chidx), ns > 0 (bounds), always (tmpl); '
         'distinct by the full input')
 ASSUMPTIONS = [
     'spike trains are sorted in time (as spike sorters deliver them); unsorted input makes np.searchsorted meaningless and is outside the property',
@@ -57,7 +68,11 @@ ASSUMPTIONS = [
     'repeating a call with the same argument objects (same loader object) must give the same result as the first call; whether arguments are modified in place or results alias caches is NOT demanded, only its consequence on later results (the unchanged code modifies no argument)',
     'input forms drawn independently of the values (tagged; the replay carries the form): spike_samples int64/int32/uint64/uint32/float64, spike_clusters and spike_channels int64/int32/uint32/uint16 (unsigned only for non-negative ids), h x/y int64/float64/float32, bin_file str or Path, max_wf / chunksize_samples / trough_offset as Python or numpy ints, positional vs keyword call in the documented signature order (make_channel_index, extract_wfs_array, extract_wfs_cbin), arr C/F order and float32/float64, df columns and neighbour table int64/int32/unsigned, radius float/np.float64/np.float32/int, labels / indices list / tuple / ndarray',
     'excluded forms: output_dir as str (extract_wfs_cbin calls output_dir.joinpath: AttributeError, the API wants a Path); spike_length_samples as a numpy integer (known finding np-int-spike-length); a uint64 sample column for extract_wfs_array (known finding extract-array-uint64-sample); unsigned sample columns with trough_offset > spike_length_samples (outside the domain: Python int -1 out of bounds)',
-    'chunk sizes >= trough_offset (the property says 500..10000); peak channels within the probe; max_wf >= 1',
+    'chunk sizes >= trough_offset (the property says 500..10000; the sweep also uses sizes down to the window length, where the model theorem '
+    'schedule_and_chunk_independent already applies: it only needs trough_offset <= chunk size); peak channels within the probe; max_wf >= 1',
+    'ops bounds / tmpl compare the model with NumPy evaluating the statement as the source writes it, not with a call of the library (the chunk list and the job '
+    'arguments are internal: a rewrite that chunks differently but saves the same files must not alarm, so they are never observed on the real code); a mismatch there '
+    'has no library input to report and is not searched',
     'cases with more than 240 waveform rows x neighbours travel as a 61-bit order-sensitive polynomial digest of every traces / templates row (computed from the full arrays on both sides) instead of the full text; smaller cases compare every value',
 ]
 TRUSTED = [
@@ -65,19 +80,31 @@ TRUSTED = [
     'joblib runs every submitted chunk exactly once (in any order); np.sort / np.argsort(kind=stable) / pandas sort_values on two keys are (stable) sorts',
     'spikeglx.Reader on a flat float32 .bin returns the file contents (C01); pandas/parquet and np.save/np.load round-trip values',
     'float64 sqrt is correctly rounded (scipy pdist), used through within_radius_iff',
+    'translator tie (harness/pyfn2lean.py): its reading of the source text; the NumPy meaning given to the translated array statements in Tie/C13.lean '
+    '(arange / + / [-1] = : compared with NumPy itself by op bounds); per-item assumptions h is not None, the file is not mtscomp, car and kfilt not both, pad_val is None',
 ]
 LEVEL_TEXT = ('Lean 4 theorems for all geometries, radii, recordings, spike trains, choices, chunk sizes and schedules: neighbour rows are exactly the '
               'ascending within-radius sets padded with nc; extract_wfs_array returns the source window on those channels (NaN for padding); '
               'chunk-local extraction equals the global window; each unit gets min(max_wf, #valid) distinct valid spikes; saved table row r, '
               'traces row r and channel-map row r describe the same spike; the result does not depend on chunk size or execution order; templates '
-              'are the per-cluster medians of exactly the cluster rows; the loader returns the saved rows.  The model is tied to the code by an exact '
-              'differential run (every saved file compared value by value).')
+              'are the per-cluster medians of exactly the cluster rows (a unit with one waveform: that waveform); the loader returns the saved rows; the chunk list is a '
+              'partition of the recording for every chunk size >= 1 (also not dividing ns, last chunk shorter than a window); the result depends on the recording only '
+              'through the values inside its dimensions (current file content) and on nothing an earlier call did.  The model is tied to the code twice: an exact '
+              'differential run (every saved file compared value by value) and a translator tie re-proved on every run against the current source text '
+              '(Tie/C13: chunk-local arithmetic of write_wfs_chunk; validity mask, min(max_wf, nspikes) and padding value of _make_wfs_table; chunk bounds, searchsorted / job '
+              'bounds and template slice end of extract_wfs_cbin; <= radius, default pad and row loop of make_channel_index).')
 LEVEL_NOTE = ('trusted: Lean kernel, the Python correspondence harness, the RNG law (checked on every case), joblib runs each chunk once, '
               'float sqrt correctly rounded.  Not proved: anything about preprocessing steps (butterworth / phase shift / car: only preprocess_steps=[] is exact), '
               'data_version-1 (4-D) loader branch and random_waveforms; index_within_clusters is only proved to be computable (no ValueError), its values (0,1,2,... within each unit) '
-              'are compared numerically in every case (partial).  Known findings excluded by hypothesis: template rows shifted when a unit has no valid spike, no valid spike at all')
+              'are compared numerically in every case (partial).  Not covered by the translator tie (outside its subset, differential run only): the removal of the padding '
+              '(wf_idx[wf_idx >= 0]: a Boolean-mask subscript), np.sort / argsort / unique, waveform_index assignment through .loc, pandas aggregate (first_index / last_index), '
+              'index_within_clusters, WaveformsLoader.load_waveforms (ismember / isin), the gather arr[:, sind][cind] of extract_wfs_array, n_jobs (read as given).  '
+              'history_independent is a statement about the pure model; that the real code carries no state between calls is what the call-sequence / path-history cases sample.  '
+              'Known findings excluded by hypothesis: template rows shifted when a unit has no valid spike, no valid spike at all')
 TECHNIQUE = ('Lean 4 proofs over an exact Nat/Int model (list induction, uniqueness of the stable sort, omega; kernel evaluation of concrete witnesses); '
-             'RNG and schedule as parameters with their laws as hypotheses; exact differential run against the real code incl. joblib workers')
+             'RNG and schedule as parameters with their laws as hypotheses; exact differential run against the real code incl. joblib workers, call sequences and '
+             'path histories; translator tie: integer / decision skeleton of write_wfs_chunk, _make_wfs_table, extract_wfs_cbin, make_channel_index regenerated from the '
+             'source on every run and proved equal to the model definitions (unfold + simp / omega, induction on the translated loop)')
 
 MOD = 8388593            # prime < 2^23
 R_FILE = 200             # make_channel_index default radius used by extract_wfs_cbin
@@ -847,6 +874,15 @@ def bin_tags(inp):
         tags.append('dup_within_unit')
     for u in set(inp['clusters']):
         tags.append('unit=0valid' if valid[u] == 0 else 'unit<max_wf' if valid[u] < mw else 'unit=max_wf' if valid[u] == mw else 'unit>max_wf')
+        if min(valid[u], mw) == 1:
+            tags.append('unit_with_one_waveform')
+    ids_ = sorted(set(inp['clusters']))
+    if ids_ != list(range(ids_[0], ids_[0] + len(ids_))) or ids_[0] != 0:
+        tags.append('cluster_ids_not_0..n-1')
+    if ns % cs and ns > cs and ns % cs < dLen:
+        tags.append('last_chunk_shorter_than_window')
+    if cs < 500:
+        tags.append('cs<500')
     if ns % cs == 0:
         tags.append('ns=k*cs')
     if ns % cs == 1 and ns > cs:
@@ -959,6 +995,59 @@ def oracle_bin(inp, alt=None):
 
 
 # ---------------------------------------------------------------------------------------------
+# (4) chunk list / searchsorted slices and (5) nanmedian templates: NumPy's evaluation of the statements of extract_wfs_cbin
+# ---------------------------------------------------------------------------------------------
+def impl_bounds(ns, cs, col):
+    """the statements of extract_wfs_cbin that build the chunk list and hand table rows to the jobs, evaluated by NumPy:
+    s0_arr = np.arange(0, ns, cs); s1_arr = s0_arr + cs; s1_arr[-1] = ns; np.searchsorted(sample column, [s0_arr[i], s1_arr[i]])"""
+    try:
+        s0_arr = np.arange(0, ns, cs)
+        s1_arr = s0_arr + cs
+        s1_arr[-1] = ns
+    except IndexError:
+        return 'err IndexError'
+    colv = np.array(col, dtype=np.int64)
+    out = []
+    for i in range(s0_arr.shape[0]):
+        lo, hi = np.searchsorted(colv, [s0_arr[i], s1_arr[i]]).astype(int)
+        out.append(f'{int(s0_arr[i])},{int(s1_arr[i])},{int(lo)},{int(hi)}')
+    return 'ok ' + ';'.join(out)
+
+
+def gen_bounds(rng):
+    cs = int(rng.choice([1, 2, 3, 7, 128, 500, 501, 3000, int(rng.integers(1, 10001))]))
+    k = int(rng.integers(0, 9))
+    m = int(rng.integers(1, 6))
+    ns = [0, 1, cs - 1, cs, cs + 1, m * cs, m * cs + 1, m * cs - 1, int(rng.integers(1, 4 * cs + 2))][k]
+    ns = max(ns, 0)
+    if ns // cs > 400:
+        ns = 400 * cs + ns % cs
+    pool = [0, 1, ns - 1, ns, ns + 3] + [i * cs + d for i in range(1, min(ns // cs + 2, 6)) for d in (-1, 0, 1)]
+    col = sorted(int(v) for v in rng.choice(pool + [int(rng.integers(0, ns + 2)) for _ in range(4)], int(rng.integers(0, 9))))
+    return ns, cs, col
+
+
+def gen_tmpl(rng):
+    nnb, ln = int(rng.integers(1, 4)), int(rng.integers(1, 5))
+    k = 1 if rng.random() < 0.4 else int(rng.integers(2, 7))
+    wfs = rng.integers(-60, 61, (k, nnb, ln)).astype(np.float32)
+    wfs[rng.random((k, nnb, ln)) < 0.15] = np.nan
+    if nnb > 1 and rng.random() < 0.5:
+        wfs[:, -1, :] = np.nan                 # a padding channel: NaN in every waveform
+    if k > 1 and rng.random() < 0.3:
+        wfs[int(rng.integers(0, k)), 0, :] = np.nan
+    return nnb, ln, wfs
+
+
+def impl_tmpl(wfs):
+    with warnings.catch_warnings():
+        warnings.simplefilter('ignore')
+        out = np.full(wfs.shape[1:], np.nan, dtype=np.float32)
+        out[:] = np.nanmedian(wfs[0:wfs.shape[0] - 1 + 1], axis=0)      # wfs[first_index:last_index + 1]
+    return 'ok ' + show_wfs(out[None], 2)
+
+
+# ---------------------------------------------------------------------------------------------
 # correspondence
 # ---------------------------------------------------------------------------------------------
 def _desc_bin(inp, load_key):
@@ -1021,6 +1110,20 @@ def correspondence(ctx):
         tags += list(form_tags(cs_['form'], ('order', 'sample_dtype', 'peak_dtype', 'spelling', 'params_as'))) + ['arr=' + cs_['dtype']]
         ctx.compare('extract', cs_, a, b, nontrivial=a.startswith('ok') and len(cs_['samples']) > 0, tags=tuple(tags))
 
+    # ---- (4) chunk list + searchsorted slices, (5) templates = nanmedian (NumPy's own evaluation of the statements)
+    bcs = [gen_bounds(rng) for _ in range(ctx.n(250, 2500))]
+    for (ns_, cs_, col_), b in zip(bcs, ctx.lean([f'bounds {ns_} {cs_} {_L(col_)}' for ns_, cs_, col_ in bcs])):
+        nch_ = (ns_ + cs_ - 1) // cs_
+        ctx.compare('bounds', {'kind': 'bounds', 'ns': ns_, 'cs': cs_, 'samples': col_}, impl_bounds(ns_, cs_, col_), b, nontrivial=ns_ > 0,
+                    tags=('bounds', 'ns=0' if ns_ == 0 else 'ns<cs' if ns_ < cs_ else 'ns=k*cs' if ns_ % cs_ == 0 else 'ns=k*cs+1' if ns_ % cs_ == 1 else 'ns%cs_other',
+                          'nchunks=1' if nch_ <= 1 else 'nchunks>=2', 'sample_on_chunk_start' if any(v % cs_ == 0 and 0 < v < ns_ for v in col_) else 'no_sample_on_chunk_start'))
+    tcs = [gen_tmpl(rng) for _ in range(ctx.n(250, 2500))]
+    tl = ['tmpl %d %d %s' % (nnb_, ln_, show_wfs(w_)) for nnb_, ln_, w_ in tcs]
+    for (nnb_, ln_, w_), line, b in zip(tcs, tl, ctx.lean(tl)):
+        ctx.compare('tmpl', {'kind': 'tmpl', 'line': line}, impl_tmpl(w_), b, nontrivial=True,
+                    tags=('tmpl', 'one_waveform' if w_.shape[0] == 1 else 'even_count' if w_.shape[0] % 2 == 0 else 'odd_count',
+                          'all_nan_column' if bool(np.any(np.all(np.isnan(w_), axis=0))) else 'no_all_nan_column'))
+
     # ---- (3) extract_wfs_cbin + loader
     inputs = [gen_bin(rng) for _ in range(ctx.n(60, 1200))] + [gen_bin(rng, big=True) for _ in range(ctx.n(4, 40))]
     # the same input under another chunk size / worker count (same seed => same choice)
@@ -1032,6 +1135,19 @@ def correspondence(ctx):
         v['n_jobs'] = workers[j % len(workers)]
         v['cs'] = int(rng.choice([500, 777, 1000, 2500, 10000]))
         v['base'] = j
+        variants.append(v)
+    # chunk-size sweep (1 worker): EVERY chunk size >= the window length must give the same files — the window length itself,
+    # one more, a size that leaves a last chunk shorter than a window, one chunk of exactly / more than the whole recording
+    for j, inp in enumerate(base[:ctx.n(5, 40)]):
+        ln_, off_, ns_ = inp['len'], inp['off'], inp['ns']
+        lo_cs = max(ln_, off_, 1, -(-ns_ // 150))                  # at most ~150 chunks (every job opens a Reader)
+        short = [c_ for c_ in range(lo_cs, min(lo_cs + 400, ns_)) if 0 < ns_ % c_ < ln_]
+        cands_ = [('cs=window_or_floor', lo_cs), ('cs=floor+1', lo_cs + 1), ('cs=ns', ns_), ('cs>ns', ns_ + 7), ('cs=ns-1', max(ns_ - 1, lo_cs))]
+        if short:
+            cands_.append(('last_chunk_shorter_than_window', short[int(rng.integers(0, len(short)))]))
+        lab_, c_ = cands_[int(rng.integers(0, len(cands_)))]
+        v = dict(inp)
+        v['n_jobs'], v['cs'], v['base'], v['sweep'] = 1, int(c_), j, lab_
         variants.append(v)
     variants.sort(key=lambda v: v['n_jobs'])          # joblib restarts its workers when n_jobs changes
     lines, impl, meta, runs = [], [], [], {}
@@ -1061,7 +1177,7 @@ def correspondence(ctx):
         d['kind'] = 'independence'
         d['alt'] = (v['cs'], v['n_jobs'])
         ctx.compare('independence', d, 'same files' if same else 'files differ', 'same files', nontrivial=True,
-                    tags=('independence', f'n_jobs={v["n_jobs"]}'))
+                    tags=('independence', f'n_jobs={v["n_jobs"]}', 'sweep:' + v.get('sweep', 'none')))
     ctx.note(f'defaults read from the code: extract_wfs_array ({dOffA}, {dLenA}), extract_wfs_cbin ({dOffC}, {dLenC}, max_wf {dMax}); '
              f'worker counts used: 1 and {workers}; every bin case compares table, traces, channel map, templates, loader aggregate and one load_waveforms call')
 
@@ -1075,6 +1191,8 @@ def _size(inp):
 
 def run_oracle(inp):
     try:
+        if inp['kind'] in ('bounds', 'tmpl'):
+            return None               # model vs NumPy's evaluation of a statement: no call of the library to judge
         if inp['kind'] == 'chidx':
             return oracle_chidx(inp['geom'], inp['radius'], inp.get('form'))
         if inp['kind'] == 'extract':
@@ -1117,6 +1235,8 @@ def search(ctx, reasons):
     cands = []
     for m in ctx.mismatches[:60]:
         c = dict(m['case'])
+        if c.get('kind') in ('bounds', 'tmpl'):
+            continue
         if c.get('kind') in ('bin', 'independence'):
             c['kind'] = 'bin'
             c.setdefault('check_alt', m['op'] == 'independence')
